@@ -40,14 +40,15 @@ RIGHT_POOLS = {
     # the first two lines share the bounding box (4,4)-(6,6)
     # ((1, 1),) / ((9, 9),): a part with a single vertex has no segment at all, a point on it still intersects
     "line": [((4, 4), (6, 6)), ((4, 6), (6, 6), (6, 4)), ((0, 2), (2, 0)), ((20, 0), (21, 0)), ((3, 0), (3, 2), (3, 2)), ((1, 1),)],
-    "multiline": [(((4, 4), (6, 6)), ((0, 2), (2, 0))), (((8, 8), (10, 10)),), (((0, 2), (2, 0)), ((9, 9),))],
+    # crossing diagonals: (1,1) lies inside the first part and in the bounding box of the second without touching it; (3,1) is on the second
+    "multiline": [(((4, 4), (6, 6)), ((0, 2), (2, 0))), (((8, 8), (10, 10)),), (((0, 2), (2, 0)), ((9, 9),)), (((0, 0), (4, 4)), ((0, 4), (4, 0)))],
     # ((1,9),(9,1)) contains neither (1,1) nor (9,9) although x and y each occur in some member;
     # the first two multipoints share the bounding box
     "multipoint": [((5, 5), (9, 0)), ((5, 0), (9, 5)), ((1, 1),), ((1, 9), (9, 1)), ((7, 7), (9, 9), (3, 1))],
     "point": [(1, 1), (9, 9), (0, 0)],
 }
-LEFT_INDEX_STYLES = ("default", "nonunique", "named", "multi")
-RIGHT_INDEX_STYLES = ("default", "labels")
+LEFT_INDEX_STYLES = ("default", "nonunique", "named", "multi", "range_step")
+RIGHT_INDEX_STYLES = ("default", "labels", "range_step")
 LEFT_EXTRA = ("none", "clash")
 SUFFIXES = (("left", "right"), ("a", "b"))
 HOWS = ("inner", "left", "right")
@@ -81,6 +82,9 @@ def left_index(style, n):
     if style == "named":
         labs = [10, 20, 30, 40][:n]
         return pd.Index(labs, name="k"), [(v,) for v in labs], ["k"]
+    if style == "range_step":
+        # what df.iloc[::2] leaves: a RangeIndex that starts at 0 but whose labels are not the row positions
+        return pd.RangeIndex(0, 2 * n, 2), [(2 * i,) for i in range(n)], [None]
     labs = [("u", 1), ("u", 2), ("v", 1), ("v", 2)][:n]
     return pd.MultiIndex.from_tuples(labs, names=["m1", "m2"]) if n else pd.MultiIndex.from_arrays([[], []], names=["m1", "m2"]), labs, ["m1", "m2"]
 
@@ -89,6 +93,8 @@ def right_index(style, n):
     import pandas as pd
     if style == "default":
         return pd.RangeIndex(n), list(range(n)), None
+    if style == "range_step":
+        return pd.RangeIndex(0, 3 * n, 3), [3 * j for j in range(n)], None
     labs = ["r0", "r1", "r2"][:n]
     return pd.Index(labs, dtype=object, name="rid"), labs, "rid"
 
@@ -184,7 +190,7 @@ def run_case(col, kind, lrows, rrows, lstyle, rstyle, extra, how, suf, case):
         exp_index_names = [rname]
     # ---------------- observed: the pandas result, and the result with the same left frame held by Dask (2 partitions)
     results = [("", res)]
-    if how != "right" and nl >= 2 and lstyle in ("default", "named") and (nl + nr + len(kind)) % 2 == 0:
+    if how != "right" and nl >= 2 and lstyle in ("default", "named", "range_step") and (nl + nr + len(kind)) % 2 == 0:
         import dask.dataframe as dd
         col.count("evaluations")
         try:
@@ -322,8 +328,8 @@ def run(ctx):
                         continue          # triples: one rotating join type per (left, right) pair in quick
                     n += 1
                     k = n + seed + ui
-                    lstyle = LEFT_INDEX_STYLES[(li + ri + hi + seed) % 4]
-                    rstyle = RIGHT_INDEX_STYLES[(li + hi + k) % 2]
+                    lstyle = LEFT_INDEX_STYLES[(li + ri + hi + seed) % 5]
+                    rstyle = RIGHT_INDEX_STYLES[(li + hi + k) % 3]
                     extra = LEFT_EXTRA[(ri + k // 2) % 2]
                     suf = SUFFIXES[(li + ri + k // 3) % 2]
                     if len(lrows) > 4 and lstyle in ("nonunique", "named", "multi"):
